@@ -67,6 +67,10 @@ def run(ck):
                 continue
             if crashed:
                 continue
+            for l in open(cpath).read().splitlines():
+                if l.startswith("direct ") and " FAIL " in l:
+                    ck.fail_input(l.split()[1], l, [l])
+                    witnessed = True
             clines = ck.model("topic", "c05conc", cpath)
             for l in clines:
                 if l.startswith("propfail lock"):
